@@ -572,8 +572,10 @@ def split_path(path, minsegs=1, maxsegs=None, rest_with_last=False):
         minsegs += 1
         maxsegs += 1
         count = len(segs)
+        # NOTE: the last extracted segment carries the rest of the path, so
+        # the required segments have to be looked at in the path itself.
         if (segs[0] or count < minsegs or count > maxsegs or
-                '' in segs[1:minsegs]):
+                '' in path.split('/')[1:minsegs]):
             raise ValueError(_('Invalid path: %s') % urllib.parse.quote(path))
     else:
         minsegs += 1
